@@ -25,7 +25,9 @@ pub enum Px {
 
 /// strata: 0 uniform [-0.5,1.5]^3; 1 in-gamut [0,1]^3; 2 lattice {-0.5,0,0.5,1,1.5}^3;
 /// 3 near-tie (ideal code has fractional part 0.5 +- d); 4 clamp ends; 5 full-range chroma -0.5;
-/// 6 near-achromatic (a grey level plus per-component perturbations of scale 1e-7..1e-3)
+/// 6 near-achromatic (a grey level plus per-component perturbations of scale 1e-7..1e-3);
+/// 7 chroma zero-crossings: black, then colours whose Cb or Cr is zero, the controlling component scanned
+/// over the 9 adjacent floats around the exact zero
 pub fn expand(c: &YuvConfig, stratum: u8, seed: u64, n: usize) -> Vec<[f32; 3]> {
     let mut e = Expand(seed);
     let mut out = Vec::with_capacity(n);
@@ -34,8 +36,27 @@ pub fn expand(c: &YuvConfig, stratum: u8, seed: u64, n: usize) -> Vec<[f32; 3]> 
     let k = (1u64 << (nb - 8)) as f64;
     let m = c.matrix_coefficients;
     let in_dom = |p: &[f32; 3]| p.iter().all(|x| x.is_finite() && *x >= -0.5 && *x <= 1.5);
+    if stratum % 8 == 7 {
+        // [black, candidate] pairs; candidates = oracle-decoded (y, cb, cr) with cb == 0 or cr == 0, the
+        // component that controls that chroma value nudged by -4..4 ulp
+        while out.len() < n {
+            let y = e.range_f64(0.05, 0.95);
+            let zero_cb = e.below(2) == 0;
+            let c = e.range_f64(-0.3, 0.3);
+            let rgb = if zero_cb { oracle::decode_ypbpr(m, y, 0.0, c) } else { oracle::decode_ypbpr(m, y, c, 0.0) };
+            let ctl = if m == yuvxyb::MatrixCoefficients::YCgCo { 1 } else if zero_cb { 2 } else { 0 };
+            for d in -4i32..=4 {
+                let mut p = [rgb[0] as f32, rgb[1] as f32, rgb[2] as f32];
+                p[ctl] = f32::from_bits((p[ctl].to_bits() as i64 + d as i64).max(0) as u32);
+                out.push([0.0, 0.0, 0.0]);
+                out.push([p[0].clamp(-0.5, 1.5), p[1].clamp(-0.5, 1.5), p[2].clamp(-0.5, 1.5)]);
+            }
+        }
+        out.truncate(n);
+        return out;
+    }
     for _ in 0..n {
-        let p: [f32; 3] = match stratum % 7 {
+        let p: [f32; 3] = match stratum % 8 {
             6 => {
                 let g = e.range_f64(-0.1, 1.1);
                 let sc = 10f64.powf(e.range_f64(-7.0, -3.0));
@@ -94,11 +115,24 @@ pub fn expand(c: &YuvConfig, stratum: u8, seed: u64, n: usize) -> Vec<[f32; 3]> 
 impl Case {
     pub fn pixels(&self) -> Vec<[f32; 3]> {
         match &self.px {
-            Px::Seeded { stratum, seed } => expand(&self.cfg, *stratum, *seed, self.w * self.h),
+            Px::Seeded { stratum, seed } => {
+                let mut px = expand(&self.cfg, *stratum, *seed, self.w * self.h);
+                if seed % 3 == 0 && stratum % 8 != 7 {
+                    let dom = |p: [f32; 3]| -> bool { p.iter().all(|x| x.is_finite() && *x >= -0.5 && *x <= 1.5) };
+                    correlate_px(&mut px, *seed, None, &dom);
+                }
+                px
+            }
             Px::Explicit(v) => v.clone(),
         }
     }
     fn json_with(&self, px: &[[f32; 3]], w: usize, h: usize) -> Value {
+        if px.len() > 4096 {
+            if let Px::Seeded { stratum, seed } = &self.px {
+                return json!({"prop":"C02","cfg":cfg_json(&self.cfg),"storage": if self.u8_storage {"u8"} else {"u16"},
+                    "by_value": self.by_value, "w": w, "h": h, "seeded": {"stratum": stratum, "seed": seed.to_string()}});
+            }
+        }
         json!({"prop":"C02","cfg":cfg_json(&self.cfg),"storage": if self.u8_storage {"u8"} else {"u16"},
                "by_value": self.by_value, "w": w, "h": h, "pixels": px.iter().map(|p| px2j(*p)).collect::<Vec<_>>()})
     }
@@ -110,7 +144,7 @@ pub fn strategy() -> BoxedStrategy<Case> {
         any::<bool>(),
         depth_storage(),
         any::<bool>(),
-        0u8..7,
+        0u8..8,
         any::<u64>(),
         1usize..=32,
         1usize..=8,
@@ -261,7 +295,40 @@ pub fn run(ctx: &Ctx, st: &mut Stats) -> Vec<Violation> {
         return v;
     }
     v.extend(lattice(ctx, st));
+    if !v.is_empty() {
+        return v;
+    }
+    v.extend(large_frames(ctx, st));
     v
+}
+
+/// real-size images (see gen::LARGE_SIZES): size-gated paths (tiling, threads, tables) only run there
+fn large_frames(ctx: &Ctx, st: &mut Stats) -> Vec<Violation> {
+    let sizes: Vec<(usize, usize)> = if ctx.light { vec![(257, 255), (521, 511), (8200, 3)] } else if ctx.quick() { crate::gen::LARGE_SIZES[..8].to_vec() } else { crate::gen::LARGE_SIZES.to_vec() };
+    let seed0 = ctx.seed;
+    par_sweep(ctx, st, sizes.len() as u64, |lo, hi, st| {
+        for j in lo..hi {
+            let (w, h) = sizes[j as usize];
+            let mut k = 0u64;
+            for (depth, u8s) in [(8u8, true), (16, false), (10, false)] {
+                for full in [false, true] {
+                    k += 1;
+                    let c = cfg(STD_MC[((j + k) % 7) as usize], TC::BT1886, CP::BT709, depth, full, (0, 0));
+                    let case = Case { cfg: c, u8_storage: u8s, by_value: k % 2 == 0, w, h, px: Px::Seeded { stratum: [0u8, 2, 6, 1][(k % 4) as usize], seed: mix64(seed0 ^ (j << 8) ^ k) | 1 } };
+                    let mut local = Stats::new();
+                    local.sample_budget = 0;
+                    if let Err(v) = check(&case, &mut local) {
+                        return Some(v);
+                    }
+                    st.evaluations += 1;
+                    st.comparisons += (w * h * 3) as u64;
+                    st.nontrivial_by_construction += 1;
+                    st.class("large_frames", 1);
+                }
+            }
+        }
+        None
+    })
 }
 
 /// RGB lattice per (matrix, range, depth): quick 24^3 at depths {8,10,16}; thorough 96^3 at all depths,
@@ -338,16 +405,17 @@ fn lattice(ctx: &Ctx, st: &mut Stats) -> Vec<Violation> {
 
 pub fn replay(v: &Value) -> Result<(), String> {
     let cfg = cfg_from_json(v.get("cfg").ok_or("cfg")?).ok_or("bad cfg")?;
-    let px: Vec<[f32; 3]> = v.get("pixels").and_then(|p| p.as_array()).ok_or("pixels")?.iter().filter_map(j2px).collect();
+    let seeded = v.get("seeded").and_then(|sd| Some(Px::Seeded { stratum: sd.get("stratum")?.as_u64()? as u8, seed: sd.get("seed")?.as_str()?.parse().ok()? }));
+    let px: Vec<[f32; 3]> = if seeded.is_some() { vec![] } else { v.get("pixels").and_then(|p| p.as_array()).ok_or("pixels")?.iter().filter_map(j2px).collect() };
     let case = Case {
         cfg,
         u8_storage: v.get("storage").and_then(|s| s.as_str()) == Some("u8"),
         by_value: v.get("by_value").and_then(|s| s.as_bool()).unwrap_or(false),
         w: v.get("w").and_then(|x| x.as_u64()).unwrap_or(px.len() as u64) as usize,
         h: v.get("h").and_then(|x| x.as_u64()).unwrap_or(1) as usize,
-        px: Px::Explicit(px),
+        px: seeded.unwrap_or(Px::Explicit(px)),
     };
     check(&case, &mut Stats::new()).map_err(|v| v.message)
 }
 
-pub const RULE: &str = "cases = (matrix in 7 standard, range, depth 8..16, storage, by-ref/by-value, w x h image (1..32 x 1..8) of RGB pixels in [-0.5,1.5]^3 from 7 strata: uniform cube, in-gamut cube, near-achromatic, 5^3 lattice, near-tie pixels (ideal code fractional part 0.5+-1e-7..1e-2, built through the oracle decoder and re-evaluated from the actual f32 values), clamp ends, full-range chroma -0.5) generated by proptest, plus an enumerated RGB lattice per config; a third of the Rgb objects are produced by painting the pixels over a grey canvas through data_mut(); every plane sample compared with the f64 H.273 ideal: |code - clamp(ideal)| <= 0.5 + 1e-6*2^n; output config/dims compared with the request; non-trivial = image with at least one plane ideal strictly inside (0, 2^n-1); distinct = by hash of (config, pixel bits)";
+pub const RULE: &str = "cases = (matrix in 7 standard, range, depth 8..16, storage, by-ref/by-value, w x h image (1..32 x 1..8) of RGB pixels in [-0.5,1.5]^3 from 8 strata: uniform cube, in-gamut cube, near-achromatic, chroma zero-crossings after a black pixel, a third of the images with related neighbours, 5^3 lattice, near-tie pixels (ideal code fractional part 0.5+-1e-7..1e-2, built through the oracle decoder and re-evaluated from the actual f32 values), clamp ends, full-range chroma -0.5) generated by proptest, plus an enumerated RGB lattice per config and real-size images (32768 .. 2 M pixels, rows up to 131080 wide); a third of the Rgb objects are produced by painting the pixels over a grey canvas through data_mut(); every plane sample compared with the f64 H.273 ideal: |code - clamp(ideal)| <= 0.5 + 1e-6*2^n; output config/dims compared with the request; non-trivial = image with at least one plane ideal strictly inside (0, 2^n-1); distinct = by hash of (config, pixel bits)";
